@@ -1,6 +1,6 @@
 (* C07 — Searching never performs undefined behaviour despite unchecked indexing. *)
 From DV Require Import Model.Base Model.Nfa Model.BwBuild Model.BwSearch Model.Utf8 Model.CwBuild Model.Api Model.Cert
-     Proofs.BwSafe Proofs.Utf8Props Proofs.CwSafe.
+     Model.Ser Proofs.BwSafe Proofs.Utf8Props Proofs.CwSafe Proofs.SerProps Proofs.BuildSafe Proofs.CwBuildSafe.
 Local Open Scope N_scope.
 
 (* Byte-wise automaton: if the range check [bw_safe_b] passes (array length a positive multiple of
@@ -16,6 +16,50 @@ Theorem bw_search_no_ub :
 Proof. intros V A S h Hb. exact (bw_search_no_ub_lemma V A S h Hb). Qed.
 Print Assumptions bw_search_no_ub.
 
+(* Universal, about the byte-wise BUILDER (Proofs/BuildSafe.v: range invariants of the trie, of the
+   growing double array, of the state-id map and of the build helper's bookkeeping, preserved by
+   every write of nfa_builder.rs and bytewise/builder.rs): EVERY automaton construction returns --
+   any byte patterns, any values, any match kind, any num_free_blocks -- passes the range check. *)
+Theorem bw_built_automaton_passes_range_check :
+  forall (V : Type) k nfb (pvs : list (list N * V)) (A : bw_automaton V),
+    (forall p v, In (p, v) pvs -> Forall (fun b => b < 256) p) ->
+    bw_build_with_values V k nfb pvs = Ok A -> bw_safe_b A = true.
+Proof. exact bw_build_safe_lemma. Qed.
+Print Assumptions bw_built_automaton_passes_range_check.
+
+(* C07 for the byte-wise variant, with no certificate: on every successfully built automaton no
+   search reaches an undefined-behaviour branch on any haystack. *)
+Theorem bw_built_automaton_never_ub :
+  forall (V : Type) k nfb (pvs : list (list N * V)) (A : bw_automaton V),
+    (forall p v, In (p, v) pvs -> Forall (fun b => b < 256) p) ->
+    bw_build_with_values V k nfb pvs = Ok A ->
+  forall h : list N, Forall (fun b => b < 256) h ->
+    noub (bw_find_iter V A h) /\ noub (bw_find_overlapping_iter V A h)
+    /\ noub (bw_find_overlapping_no_suffix_iter V A h) /\ noub (bw_leftmost_find_iter V A h).
+Proof.
+  intros V k nfb pvs A Hp HA h Hh.
+  exact (bw_search_no_ub_lemma V A (bw_build_safe_lemma V k nfb pvs A Hp HA) h Hh).
+Qed.
+Print Assumptions bw_built_automaton_never_ub.
+
+(* ... and on the automaton restored from the bytes it serialises to (any trailing bytes), for every
+   lawful value type: the restored automaton IS the built one (C09). *)
+Theorem bw_restored_automaton_never_ub :
+  forall (V : Type) (SV : serializable V) (dom : V -> Prop), ser_law SV dom ->
+  forall k nfb (pvs : list (list N * V)) (A : bw_automaton V),
+    (forall p v, In (p, v) pvs -> Forall (fun b => b < 256) p) ->
+    bw_build_with_values V k nfb pvs = Ok A -> bw_ranges dom A ->
+  forall r A' r', bw_deserialize V SV (bw_serialize V SV A ++ r) = Ok (A', r') ->
+  forall h : list N, Forall (fun b => b < 256) h ->
+    noub (bw_find_iter V A' h) /\ noub (bw_find_overlapping_iter V A' h)
+    /\ noub (bw_find_overlapping_no_suffix_iter V A' h) /\ noub (bw_leftmost_find_iter V A' h).
+Proof.
+  intros V SV dom L k nfb pvs A Hp HA HR r A' r' HD h Hh.
+  rewrite (bw_roundtrip_lemma SV dom L A r HR) in HD. inversion HD; subst A' r'.
+  exact (bw_search_no_ub_lemma V A (bw_build_safe_lemma V k nfb pvs A Hp HA) h Hh).
+Qed.
+Print Assumptions bw_restored_automaton_never_ub.
+
 (* Character-wise automaton: if the range check [cw_safe_b] passes (array length a multiple of the
    power-of-two block length, every mapped code below the block length, bases/fails/output positions
    in range) then none of the four search methods reaches a UB branch on ANY valid UTF-8 haystack:
@@ -30,6 +74,47 @@ Theorem cw_search_no_ub :
     /\ noub (cw_find_overlapping_no_suffix_iter V A h) /\ noub (cw_leftmost_find_iter V A h).
 Proof. intros V A S cs Hs. exact (cw_search_no_ub_lemma V A S cs Hs). Qed.
 Print Assumptions cw_search_no_ub.
+
+(* Universal, about the character-wise BUILDER (Proofs/CwBuildSafe.v): EVERY automaton construction
+   returns -- any patterns, values, match kind, num_free_blocks -- passes the range check: the block
+   length is a power of two not below the alphabet size (u32::next_power_of_two, the capacity check
+   of BuildHelper::new), every mapped code is below it, the array length is a multiple of it, and
+   bases / fails / output positions are in range. *)
+Theorem cw_built_automaton_passes_range_check :
+  forall (V : Type) k nfb (pvs : list (list N * V)) (A : cw_automaton V),
+    cw_build_with_values V k nfb pvs = Ok A -> cw_safe_b A = true.
+Proof. exact cw_build_safe_lemma. Qed.
+Print Assumptions cw_built_automaton_passes_range_check.
+
+(* C07 for the character-wise variant, with no certificate *)
+Theorem cw_built_automaton_never_ub :
+  forall (V : Type) k nfb (pvs : list (list N * V)) (A : cw_automaton V),
+    cw_build_with_values V k nfb pvs = Ok A ->
+  forall cs : list N, Forall scalar cs ->
+    let h := encode_utf8 cs in
+    noub (cw_find_iter V A h) /\ noub (cw_find_overlapping_iter V A h)
+    /\ noub (cw_find_overlapping_no_suffix_iter V A h) /\ noub (cw_leftmost_find_iter V A h).
+Proof.
+  intros V k nfb pvs A HA cs Hs.
+  exact (cw_search_no_ub_lemma V A (cw_build_safe_lemma V k nfb pvs A HA) cs Hs).
+Qed.
+Print Assumptions cw_built_automaton_never_ub.
+
+Theorem cw_restored_automaton_never_ub :
+  forall (V : Type) (SV : serializable V) (dom : V -> Prop), ser_law SV dom ->
+  forall k nfb (pvs : list (list N * V)) (A : cw_automaton V),
+    cw_build_with_values V k nfb pvs = Ok A -> cw_ranges dom A ->
+  forall r A' r', cw_deserialize V SV (cw_serialize V SV A ++ r) = Ok (A', r') ->
+  forall cs : list N, Forall scalar cs ->
+    let h := encode_utf8 cs in
+    noub (cw_find_iter V A' h) /\ noub (cw_find_overlapping_iter V A' h)
+    /\ noub (cw_find_overlapping_no_suffix_iter V A' h) /\ noub (cw_leftmost_find_iter V A' h).
+Proof.
+  intros V SV dom L k nfb pvs A HA HR r A' r' HD cs Hs.
+  rewrite (cw_roundtrip_lemma SV dom L A r HR) in HD. inversion HD; subst A' r'.
+  exact (cw_search_no_ub_lemma V A (cw_build_safe_lemma V k nfb pvs A HA) cs Hs).
+Qed.
+Print Assumptions cw_restored_automaton_never_ub.
 
 (* the source comment "the length is a multiple of the block size and every base is below the
    length, so base XOR label is below the length", as a lemma *)
